@@ -220,35 +220,32 @@ theorem step_rel (hQ : Q.falsyRoute = false) (h : Rel E pd pu) :
     cases hk : E[k]? with
     | none => simp only [Option.map_none]; exact good_err _ _ _
     | some cd =>
-      simp only [Option.map_some, exceeded_none]
-      by_cases hex : exceeded cd.maxDepth (c.depth + 1) = true
-      · -- the limit rejects: nothing the unlimited run produces here is within the limit
-        simp only [hex, if_true]
-        apply good_err_left
-        intro r hr
-        simp only [Bool.false_eq_true, if_false] at hr
-        cases v with
-        | dict kvs =>
-          obtain ⟨fs, _, rfl⟩ := (mapOut_fst_ok _ _ r).1 hr
-          simp [within, hk, hex]
-        | tok n => cases hr
-        | none => cases hr
-        | list vs => cases hr
-      · simp only [hex, Bool.false_eq_true, if_false]
-        cases v with
-        | tok n => exact good_err _ _ _
-        | none => exact good_err _ _ _
-        | list vs => exact good_err _ _ _
-        | dict kvs =>
-          have hw : ∀ fs, within E c.depth (Res.data k fs) = fs.all (fun p => within E (c.depth + 1) p.2) := by
-            intro fs
-            have : exceeded cd.maxDepth (c.depth + 1) = false := by simpa using hex
-            simp [within, hk, this, withinF_eq]
-          apply mapOut_good (Res.data k) (fun fs => fs.all (fun p => within E (c.depth + 1) p.2)) _ hw
-          have hd' : c.depth + 1 = c'.depth + 1 := by rw [hd]
-          split
-          · exact parseDF_good hQ h ⟨c.depth + 1, cd.mode, cd.maxDepth⟩ ⟨c'.depth + 1, cd.mode, none⟩ hd' rfl _ _
-          · exact parseFF_good hQ h ⟨c.depth + 1, cd.mode, cd.maxDepth⟩ ⟨c'.depth + 1, cd.mode, none⟩ hd' rfl _ _
+      simp only [Option.map_some, exceeded_none, ← hm]
+      cases hu : unwrapData c.mode v with
+      | none => exact good_err _ _ _
+      | some v1 =>
+        simp only [Bool.false_eq_true, if_false]
+        cases ht : toDict cd.mode v1 with
+        | none => split <;> exact good_err _ _ _
+        | some kvs =>
+          by_cases hex : exceeded cd.maxDepth (c.depth + 1) = true
+          · -- the limit rejects: nothing the unlimited run produces here is within the limit
+            simp only [hex, if_true]
+            apply good_err_left
+            intro r hr
+            obtain ⟨fs, _, rfl⟩ := (mapOut_fst_ok _ _ r).1 hr
+            simp [within, hk, hex]
+          · simp only [hex, Bool.false_eq_true, if_false]
+            have hw : ∀ fs, within E c.depth (Res.data k fs) = fs.all (fun p => within E (c.depth + 1) p.2) := by
+              intro fs
+              have : exceeded cd.maxDepth (c.depth + 1) = false := by simpa using hex
+              simp [within, hk, this, withinF_eq]
+            apply mapOut_good (Res.data k) (fun fs => fs.all (fun p => within E (c.depth + 1) p.2)) _ hw
+            have hd' : c.depth + 1 = c'.depth + 1 := by rw [hd]
+            apply failIf_good
+            split
+            · exact parseDF_good hQ h ⟨c.depth + 1, cd.mode, cd.maxDepth⟩ ⟨c'.depth + 1, cd.mode, none⟩ hd' rfl _ _
+            · exact parseFF_good hQ h ⟨c.depth + 1, cd.mode, cd.maxDepth⟩ ⟨c'.depth + 1, cd.mode, none⟩ hd' rfl _ _
   | list t =>
     simp only [step, ← hm]
     cases wrapSeq c.mode v with
@@ -264,12 +261,10 @@ theorem step_rel (hQ : Q.falsyRoute = false) (h : Rel E pd pu) :
       exact mapOut_good Res.tuple (fun rs => rs.all (within E c.depth)) _
         (fun rs => by simp [within, withinL_eq]) _ _ (parseItems_good hQ h c c' hd hm t vs)
   | dict kt t =>
-    simp only [step]
-    cases v with
-    | tok n => exact good_err _ _ _
+    simp only [step, ← hm]
+    cases toDict c.mode v with
     | none => exact good_err _ _ _
-    | list vs => exact good_err _ _ _
-    | dict kvs =>
+    | some kvs =>
       exact mapOut_good Res.dict (fun rs => rs.all (fun p => within E c.depth p.2)) _
         (fun rs => by simp [within, withinK_eq]) _ _ (parseEntries_good hQ h c c' hd hm kt t kvs)
   | union ts =>
@@ -517,7 +512,7 @@ theorem badChain_cost (W : World) (hg : ∀ m, W.leafOk m 0 = true) (hb : ∀ m,
     have : 2 * 0 + 2 + j = j + 1 + 1 := by omega
     rw [this]
     simp [parse, step, nodeEnv_get, exceeded, badChain, parseFF, seqM, lookupKey, parseField, enter, inCtx,
-      mapOut, hb, chainCost]
+      mapOut, hb, chainCost, Mode.lenient, failIf, unwrapData, toDict]
   | succ k ih =>
     intro j c
     have : 2 * (k + 1) + 2 + j = (2 * k + 2 + j) + 1 + 1 := by omega
@@ -530,7 +525,7 @@ theorem badChain_cost (W : World) (hg : ∀ m, W.leafOk m 0 = true) (hb : ∀ m,
     have hu := fun c' hc' => union_triples Q (parse W Q nodeEnv (2 * k + 2 + j)) c' hc' (badChain k) (chainCost k)
       (by rw [hkvs]; rfl) (fun c'' => ih j c'') hnone
     simp [parse, step, nodeEnv_get, exceeded, badChain, parseFF, seqM, lookupKey, parseField, enter, inCtx,
-      mapOut, hg, chainCost, hu]
+      mapOut, hg, chainCost, hu, failIf, unwrapData, toDict]
     omega
 
 /-- **The unchanged code is exponential** (negation of the cost clause, at full strength): an input of
@@ -736,15 +731,13 @@ theorem step_costFree (h : CostFree rec) : CostFree (step W Q E rec) := by
   | dict kt t =>
     simp only [noData] at hT
     simp only [step, tyWt]
-    cases v with
-    | dict kvs =>
+    cases ht : toDict c.mode v with
+    | some kvs =>
       simp only [mapOut_snd]
       refine Nat.le_trans (entries_cost (tyWt c.mode t) c kt t kvs (fun c' v' hc' => by
         have := h c' t v' hT; rwa [hc'] at this)) ?_
-      exact Nat.mul_le_mul_left _ (by simp [vsize])
-    | tok n => simp
+      exact Nat.mul_le_mul_left _ (toDict_size _ _ _ ht)
     | none => simp
-    | list vs => simp
   | union ts =>
     simp only [noData] at hT
     simp only [step]
@@ -784,20 +777,30 @@ theorem step_costOk (B : Nat) (hE : envOk B E = true) (h1 : CostFree rec) (h2 : 
     | some cd =>
       obtain ⟨hf, hnd⟩ := envOk_field B hE k cd hk
       simp only
+      cases hu : unwrapData c.mode v with
+      | none => simp
+      | some v1 =>
+      simp only
       split
       · simp
-      · cases v with
-        | tok n => simp
+      · cases ht : toDict cd.mode v1 with
         | none => simp
-        | list vs => simp
-        | dict kvs =>
-          simp only [mapOut_snd]
-          have hgoal : B * vsizeK kvs ≤ B * vsize (Val.dict kvs) := Nat.mul_le_mul_left _ (by simp [vsize])
+        | some kvs =>
+          simp only [mapOut_snd, failIf_snd]
+          have hgoal : B * vsizeK kvs ≤ B * vsize v := Nat.mul_le_mul_left _
+            (Nat.le_trans (toDict_size _ _ _ ht) (unwrapData_size _ _ _ hu))
           refine Nat.le_trans ?_ hgoal
           split
           · -- data-first
             simp only [parseDF, mapOut_snd]
-            refine Nat.le_trans (seqM_cost_le _ (fun it => B * vsize it.2.2) _ ?_) (knownItems_sum_le B _ _)
+            have hpre : B * vsizeK (if (cd.mode.noLoss && hasUnknown cd.fields kvs) = true
+                then knownPrefix cd.fields kvs else kvs) ≤ B * vsizeK kvs := by
+              apply Nat.mul_le_mul_left
+              split
+              · exact knownPrefix_size _ _
+              · exact Nat.le_refl _
+            refine Nat.le_trans (Nat.le_trans
+              (seqM_cost_le _ (fun (it : String × Ty × Val) => B * vsize it.2.2) _ ?_) (knownItems_sum_le B _ _)) hpre
             intro it hit
             rw [mapOut_snd]
             have := hf (it.1, it.2.1) (knownItems_field _ _ it hit)
@@ -852,14 +855,12 @@ theorem step_costOk (B : Nat) (hE : envOk B E = true) (h1 : CostFree rec) (h2 : 
     simp only [noDataUnderUnion] at hT
     simp only [tyWt] at hB
     simp only [step]
-    cases v with
-    | dict kvs =>
+    cases ht : toDict c.mode v with
+    | some kvs =>
       simp only [mapOut_snd]
       refine Nat.le_trans (entries_cost B c kt t kvs (fun c' v' hc' => h2 c' t v' hT (by rw [hc']; exact hB))) ?_
-      exact Nat.mul_le_mul_left _ (by simp [vsize])
-    | tok n => simp
+      exact Nat.mul_le_mul_left _ (toDict_size _ _ _ ht)
     | none => simp
-    | list vs => simp
   | union ts =>
     simp only [noDataUnderUnion] at hT
     have := step_costFree (W := W) (Q := Q) (E := E) h1 c (.union ts) v (by simpa [noData] using hT)
@@ -974,9 +975,19 @@ theorem union_ok_mem (c : Ctx) (ts : List Ty) (v : Val) (r : Res) (hv : isNoneVa
       · cases h3
     · exact hstage _ _ h4
 
+theorem step_data_eq (c : Ctx) (k : Nat) (cd : ClassDecl) (v v1 : Val) (kvs : List (Key × Val))
+    (hk : E[k]? = some cd) (hu : unwrapData c.mode v = some v1) (ht : toDict cd.mode v1 = some kvs) :
+    step W Q E rec c (.data k) v = step W Q E rec c (.data k) (.dict kvs) := by
+  simp only [step, hk, hu, ht, unwrapData_dict, toDict_dict]
+
+theorem step_dict_eq (c : Ctx) (kt : KeyTy) (t : Ty) (v : Val) (kvs : List (Key × Val))
+    (ht : toDict c.mode v = some kvs) :
+    step W Q E rec c (.dict kt t) v = step W Q E rec c (.dict kt t) (.dict kvs) := by
+  simp only [step, ht, toDict_dict]
+
 theorem step_forced (hrec : ForcedOk E rec) : ForcedOk E (step W Q E rec) := by
   intro T v n hf c r h
-  cases hf with
+  induction hf generalizing c r with
   | zero => exact Nat.zero_le _
   | leafBad v n hv =>
     simp only [step] at h
@@ -991,12 +1002,25 @@ theorem step_forced (hrec : ForcedOk E rec) : ForcedOk E (step W Q E rec) := by
     | some cd =>
       simp only [hk] at h
       rcases hbad with hb | hb
-      · split at h
-        · cases h
-        · cases v <;> simp_all [isDict]
+      · simp only [unwrapData_scalar _ _ hb, toDict_scalar _ _ hb] at h
+        split at h <;> cases h
       · simp [fieldsOf, hk] at hb
-  | data k fields kvs f ft sub n hfl hlook hkey hsub =>
-    simp only [step] at h
+  | dataSeq k ws n _ ih =>
+    cases hk : E[k]? with
+    | none => simp [step, hk] at h
+    | some cd =>
+      cases hu : unwrapData c.mode (.list ws) with
+      | none => simp [step, hk, hu] at h
+      | some v1 =>
+        cases ht : toDict cd.mode v1 with
+        | none =>
+          simp only [step, hk, hu, ht] at h
+          split at h <;> cases h
+        | some kvs =>
+          rw [step_data_eq c k cd _ v1 kvs hk hu ht] at h
+          exact ih c.mode cd.mode v1 kvs hu ht c r h
+  | data k fields kvs f ft sub n hfl hlook hkey hsub _ =>
+    simp only [step, unwrapData, toDict] at h
     cases hk : E[k]? with
     | none => simp [hk] at h
     | some cd =>
@@ -1006,6 +1030,8 @@ theorem step_forced (hrec : ForcedOk E rec) : ForcedOk E (step W Q E rec) := by
       split at h
       · cases h
       · obtain ⟨fs, hfs, rfl⟩ := (mapOut_fst_ok _ _ r).1 h
+        obtain ⟨hbf, hfs⟩ := (failIf_ok _ _ fs).1 hfs
+        simp only [hbf, Bool.false_eq_true, if_false] at hfs
         simp only [rdepth]
         apply Nat.succ_le_succ
         split at hfs
@@ -1032,15 +1058,15 @@ theorem step_forced (hrec : ForcedOk E rec) : ForcedOk E (step W Q E rec) := by
           obtain ⟨r', hr', rfl⟩ := (mapOut_fst_ok _ _ b).1 hp
           obtain ⟨c', hc'⟩ := parseField_ok _ _ _ _ hr'
           exact Nat.le_trans (hrec ft sub n hsub c' r' hc') (rdepthF_mem _ f r' hb)
-  | listMem t vs x n hx hsub =>
+  | listMem t vs x n hx hsub _ =>
     simp only [step, wrapSeq] at h
     obtain ⟨rs, hrs, rfl⟩ := (mapOut_fst_ok _ _ r).1 h
     simpa [rdepth] using items_forced hrec c t vs rs hrs x hx n hsub
-  | tupleMem t vs x n hx hsub =>
+  | tupleMem t vs x n hx hsub _ =>
     simp only [step, wrapSeq] at h
     obtain ⟨rs, hrs, rfl⟩ := (mapOut_fst_ok _ _ r).1 h
     simpa [rdepth] using items_forced hrec c t vs rs hrs x hx n hsub
-  | listWrap t v n hl hne hsub =>
+  | listWrap t v n hl hne hsub _ =>
     simp only [step] at h
     cases hw : wrapSeq c.mode v with
     | none => simp [hw] at h
@@ -1049,7 +1075,7 @@ theorem step_forced (hrec : ForcedOk E rec) : ForcedOk E (step W Q E rec) := by
       obtain ⟨rs, hrs, rfl⟩ := (mapOut_fst_ok _ _ r).1 h
       have hx : v ∈ vs := wrapSeq_mem _ v vs hl hne hw
       simpa [rdepth] using items_forced hrec c t vs rs hrs v hx n hsub
-  | tupleWrap t v n hl hne hsub =>
+  | tupleWrap t v n hl hne hsub _ =>
     simp only [step] at h
     cases hw : wrapSeq c.mode v with
     | none => simp [hw] at h
@@ -1058,8 +1084,8 @@ theorem step_forced (hrec : ForcedOk E rec) : ForcedOk E (step W Q E rec) := by
       obtain ⟨rs, hrs, rfl⟩ := (mapOut_fst_ok _ _ r).1 h
       have hx : v ∈ vs := wrapSeq_mem _ v vs hl hne hw
       simpa [rdepth] using items_forced hrec c t vs rs hrs v hx n hsub
-  | dictMem kt t kvs key x n hx hsub =>
-    simp only [step] at h
+  | dictMem kt t kvs key x n hx hsub _ =>
+    simp only [step, toDict] at h
     obtain ⟨rs, hrs, rfl⟩ := (mapOut_fst_ok _ _ r).1 h
     simp only [parseEntries] at hrs
     obtain ⟨b, hb, hp⟩ := seqM_ok_mem _ _ rs hrs (key, x) hx
@@ -1070,9 +1096,15 @@ theorem step_forced (hrec : ForcedOk E rec) : ForcedOk E (step W Q E rec) := by
       simp only [rdepth]
       exact Nat.le_trans (hrec t x n hsub c' r' h2) (rdepthK_mem rs key r' hb)
   | dictBad kt t v n hv =>
-    simp only [step] at h
-    cases v <;> simp_all [isDict]
-  | union ts v n hv hall =>
+    simp only [step, toDict_scalar _ _ hv] at h
+    cases h
+  | dictSeq kt t ws n _ ih =>
+    cases ht : toDict c.mode (.list ws) with
+    | none => simp [step, ht] at h
+    | some kvs =>
+      rw [step_dict_eq c kt t _ kvs ht] at h
+      exact ih c.mode kvs ht c r h
+  | union ts v n hv hall _ =>
     simp only [step] at h
     obtain ⟨t, ht, c', hc'⟩ := union_ok_mem c ts v r hv h
     exact hrec t v n (hall t ht) c' r hc'
@@ -1103,6 +1135,8 @@ theorem forced_withLimit (d : Nat) (E : Env) (T : Ty) (v : Val) (n : Nat) (h : F
   | tupleWrap t v n hl hne _ ih => exact .tupleWrap t v n hl hne ih
   | dictMem kt t kvs key x n hx _ ih => exact .dictMem kt t kvs key x n hx ih
   | dictBad kt t v n hv => exact .dictBad kt t v n hv
+  | dataSeq k ws n _ ih => exact .dataSeq k ws n ih
+  | dictSeq kt t ws n _ ih => exact .dictSeq kt t ws n ih
   | union ts v n hv _ ih => exact .union ts v n hv ih
 
 /-- **Inputs deeper than the limit are rejected**: if the declared types force more than `d` nested data-class
@@ -1234,14 +1268,8 @@ theorem step_scalarFree (h : ScalarFree rec) : ScalarFree (step W Q E rec) := by
     cases hk : E[k]? with
     | none => simp [hk] at hr
     | some cd =>
-      simp only [hk] at hr
-      split at hr
-      · cases hr
-      · cases v with
-        | tok n => cases hr
-        | none => cases hr
-        | list l => simp [isScalarVal] at hv
-        | dict kvs => simp [isScalarVal] at hv
+      simp only [hk, unwrapData_scalar _ _ hv, toDict_scalar _ _ hv] at hr
+      split at hr <;> cases hr
   | list t =>
     simp only [step] at hr
     cases hw : wrapSeq c.mode v with
@@ -1359,49 +1387,56 @@ theorem step_rel2 (hQ : Q.falsyRoute = false) (hE : envUnamb E = true) (hrel : R
     | leaf => simp only [step, ← hm]; simpa only [step] using hr
     | none => simp only [step]; simpa only [step] using hr
     | data k =>
-      simp only [step, unlimited_get] at hr ⊢
       cases hk : E[k]? with
-      | none => simp [hk] at hr
+      | none => simp [step, hk] at hr
       | some cd =>
+        have hk' : (unlimited E)[k]? = some { cd with maxDepth := none } := by rw [unlimited_get, hk]; rfl
+        cases hu : unwrapData c.mode v with
+        | none => simp [step, hk, hu] at hr
+        | some v1 =>
+        cases ht : toDict cd.mode v1 with
+        | none => simp only [step, hk, hu, ht] at hr; split at hr <;> cases hr
+        | some kvs =>
+        rw [step_data_eq c k cd v v1 kvs hk hu ht] at hr
+        rw [step_data_eq c' k _ v v1 kvs hk' (by rw [← hm]; exact hu) ht]
+        simp only [step, unlimited_get, unwrapData, toDict] at hr ⊢
         have hf := envUnamb_field hE k cd hk
         simp only [hk, Option.map_some, exceeded_none, Bool.false_eq_true, if_false] at hr ⊢
         split at hr
         · cases hr
-        · cases v with
-          | tok n => cases hr
-          | none => cases hr
-          | list l => cases hr
-          | dict kvs =>
-            simp only at hr ⊢
-            refine mapOut_agree _ _ _ ?_ r hr
-            intro fs hfs
-            have hfield : ∀ (t : Ty) (fv : Val) (b : Res), unamb t = true →
-                (parseField Q pd ⟨c.depth + 1, cd.mode, cd.maxDepth⟩ t fv).1 = .ok b →
-                (parseField Q pu ⟨c'.depth + 1, cd.mode, none⟩ t fv).1 = .ok b := by
-              intro t fv b ht hb
-              simp only [parseField, enter_fixed Q hQ, inCtx] at hb ⊢
-              exact h2.agree { depth := c.depth + 1, mode := cd.mode, md := cd.maxDepth }
-                { depth := c'.depth + 1, mode := cd.mode, md := none } t fv b ht (by simp [hd]) rfl hb
-            split at hfs
-            · simp only [parseDF] at hfs ⊢
-              rename_i hdfs
-              simp only [hdfs, if_true]
-              refine mapOut_agree _ _ _ ?_ fs hfs
-              intro rs hrs
-              refine seqM_agree _ _ _ ?_ rs hrs
-              intro it hit b hb
-              exact mapOut_agree _ _ _ (fun b' hb' =>
-                hfield it.2.1 it.2.2 b' (hf (it.1, it.2.1) (knownItems_field _ _ it hit)) hb') b hb
-            · rename_i hdfs
-              simp only [hdfs, Bool.false_eq_true, if_false]
-              simp only [parseFF] at hfs ⊢
-              refine seqM_agree _ _ _ ?_ fs hfs
-              intro ft hft b hb
-              cases hl : lookupKey (Key.str ft.1) kvs with
-              | none => simpa [hl] using hb
-              | some fv =>
-                simp only [hl] at hb ⊢
-                exact mapOut_agree _ _ _ (fun b' hb' => hfield ft.2 fv b' (hf ft hft) hb') b hb
+        · -- the mapping case
+          refine mapOut_agree _ _ _ ?_ r hr
+          intro fs hfs
+          obtain ⟨hbf, hfs⟩ := (failIf_ok _ _ fs).1 hfs
+          refine (failIf_ok _ _ fs).2 ⟨hbf, ?_⟩
+          simp only [hbf, Bool.false_eq_true, if_false] at hfs ⊢
+          have hfield : ∀ (t : Ty) (fv : Val) (b : Res), unamb t = true →
+              (parseField Q pd ⟨c.depth + 1, cd.mode, cd.maxDepth⟩ t fv).1 = .ok b →
+              (parseField Q pu ⟨c'.depth + 1, cd.mode, none⟩ t fv).1 = .ok b := by
+            intro t fv b ht hb
+            simp only [parseField, enter_fixed Q hQ, inCtx] at hb ⊢
+            exact h2.agree { depth := c.depth + 1, mode := cd.mode, md := cd.maxDepth }
+              { depth := c'.depth + 1, mode := cd.mode, md := none } t fv b ht (by simp [hd]) rfl hb
+          split at hfs
+          · simp only [parseDF] at hfs ⊢
+            rename_i hdfs
+            simp only [hdfs, if_true]
+            refine mapOut_agree _ _ _ ?_ fs hfs
+            intro rs hrs
+            refine seqM_agree _ _ _ ?_ rs hrs
+            intro it hit b hb
+            exact mapOut_agree _ _ _ (fun b' hb' =>
+              hfield it.2.1 it.2.2 b' (hf (it.1, it.2.1) (knownItems_field _ _ it hit)) hb') b hb
+          · rename_i hdfs
+            simp only [hdfs, Bool.false_eq_true, if_false]
+            simp only [parseFF] at hfs ⊢
+            refine seqM_agree _ _ _ ?_ fs hfs
+            intro ft hft b hb
+            cases hl : lookupKey (Key.str ft.1) kvs with
+            | none => simpa [hl] using hb
+            | some fv =>
+              simp only [hl] at hb ⊢
+              exact mapOut_agree _ _ _ (fun b' hb' => hfield ft.2 fv b' (hf ft hft) hb') b hb
     | list t =>
       simp only [unamb] at hT
       simp only [step, ← hm] at hr ⊢
@@ -1420,13 +1455,12 @@ theorem step_rel2 (hQ : Q.falsyRoute = false) (hE : envUnamb E = true) (hrel : R
         exact mapOut_agree _ _ _ (fun rs hrs => items_agree c c' t vs rs hT hd hm hrs) r hr
     | dict kt t =>
       simp only [unamb] at hT
-      simp only [step] at hr ⊢
-      cases v with
-      | tok n => cases hr
-      | none => cases hr
-      | list l => cases hr
-      | dict kvs =>
-        simp only at hr ⊢
+      cases ht : toDict c.mode v with
+      | none => simp [step, ht] at hr
+      | some kvs =>
+        rw [step_dict_eq c kt t v kvs ht] at hr
+        rw [step_dict_eq c' kt t v kvs (by rw [← hm]; exact ht)]
+        simp only [step, toDict] at hr ⊢
         refine mapOut_agree _ _ _ ?_ r hr
         intro rs hrs
         simp only [parseEntries, enter_fixed Q hQ, inCtx] at hrs ⊢
@@ -1485,9 +1519,29 @@ theorem step_rel2 (hQ : Q.falsyRoute = false) (hE : envUnamb E = true) (hrel : R
         simp only [step]
       rw [this, hok] at hfail; cases hfail
     | data k =>
-      have : step W Q E pd c2 (Ty.data k) v = step W Q E pd c (Ty.data k) v := by
-        simp only [step, hc2]
-      rw [this]; exact hfail
+      cases hk : E[k]? with
+      | none => simp [step, unlimited_get, hk, Out.isOk] at hok
+      | some cd =>
+        have hk' : (unlimited E)[k]? = some { cd with maxDepth := none } := by rw [unlimited_get, hk]; rfl
+        cases hu : unwrapData c.mode v with
+        | none => simp [step, hk', ← hm, hu, Out.isOk] at hok
+        | some v1 =>
+        cases ht : toDict cd.mode v1 with
+        | none => simp [step, hk', ← hm, hu, ht, Out.isOk] at hok
+        | some kvs =>
+        cases hu2 : unwrapData c2.mode v with
+        | none => simp [step, hk, hu2, Out.isOk]
+        | some v2 =>
+        cases ht2 : toDict cd.mode v2 with
+        | none => simp only [step, hk, hu2, ht2]; split <;> rfl
+        | some kvs2 =>
+        have := dataPrep_indep _ _ _ v v1 v2 kvs kvs2 hu ht hu2 ht2
+        subst this
+        rw [step_data_eq c k cd v v1 kvs2 hk hu ht] at hfail
+        rw [step_data_eq c2 k cd v v2 kvs2 hk hu2 ht2]
+        have : step W Q E pd c2 (Ty.data k) (.dict kvs2) = step W Q E pd c (Ty.data k) (.dict kvs2) := by
+          simp only [step, hc2, unwrapData]
+        rw [this]; exact hfail
     | list t =>
       simp only [unamb] at hT
       simp only [step, ← hm] at hfail hok ⊢
@@ -1520,12 +1574,18 @@ theorem step_rel2 (hQ : Q.falsyRoute = false) (hE : envUnamb E = true) (hrel : R
           exact items_fail c2 t vs2 x hx (fun c3 hc3 => hbad c3 (by rw [hc3, hc2]))
     | dict kt t =>
       simp only [unamb] at hT
-      simp only [step] at hfail hok ⊢
-      cases v with
-      | tok n => rfl
-      | none => rfl
-      | list l => rfl
-      | dict kvs =>
+      cases ht : toDict c.mode v with
+      | none => simp [step, ← hm, ht, Out.isOk] at hok
+      | some kvs =>
+      cases ht2 : toDict c2.mode v with
+      | none => simp [step, ht2, Out.isOk]
+      | some kvs2 =>
+        have := toDict_indep _ _ v kvs kvs2 ht ht2
+        subst this
+        rw [step_dict_eq c kt t v kvs2 ht] at hfail
+        rw [step_dict_eq c' kt t v kvs2 (by rw [← hm]; exact ht)] at hok
+        rw [step_dict_eq c2 kt t v kvs2 ht2]
+        simp only [step, toDict] at hfail hok ⊢
         simp only [mapOut_isOk] at hfail hok ⊢
         simp only [parseEntries, enter_fixed Q hQ, inCtx] at hfail hok ⊢
         obtain ⟨kv, hkv, hbad⟩ := seqM_err_mem _ _ hfail
@@ -1646,5 +1706,143 @@ theorem C18_ambiguous_union_witness :
      | .ok r => rdepth r
      | .err _ => 0) = 3 := by
   decide
+
+end Utv.C18
+
+namespace Utv.C18
+
+/-! ### cost of unions nested through containers (no data class in between)
+
+`envOk` / `noData` already cover this shape: a union whose alternatives are leaves and containers of further such
+unions restarts nothing, because `enter` passes the stage's preferences down (`self.options & options`) and only a
+data class resets them.  The general statement is `C18_cost_containers` (weight × size, weight = `tyWt`); for the
+JSON-like family `V(0) = Leaf, V(n+1) = Union[Leaf, List[V(n)]]` the weight is at most `(n+1)³`, so the work is
+polynomial in the nesting depth and linear in the input — for valid and invalid inputs alike. -/
+
+/-- **Containers and unions of leaves**: no data class anywhere in the type ⇒ cost ≤ weight(type) · size(input),
+in every context, for every input. -/
+theorem C18_cost_containers (W : World) (Q : Quirks) (E : Env) (fuel : Nat) (c : Ctx) (T : Ty) (v : Val)
+    (hT : noData T = true) : (parse W Q E fuel c T v).2 ≤ tyWt c.mode T * vsize v :=
+  parse_costFree W Q E fuel c T v hT
+
+/-- `V(0) = Leaf`, `V(n+1) = Union[Leaf, List[V(n)]]` -/
+def jsonTy : Nat → Ty
+  | 0 => .leaf
+  | n + 1 => .union [.leaf, .list (jsonTy n)]
+
+theorem noData_jsonTy (n : Nat) : noData (jsonTy n) = true := by
+  induction n with
+  | zero => rfl
+  | succ n ih => simp [jsonTy, noData, noDataL, ih]
+
+theorem tyWt_jsonTy_strict (n : Nat) : tyWt Mode.strict (jsonTy n) = n + 1 := by
+  induction n with
+  | zero => rfl
+  | succ n ih => simp [jsonTy, tyWt, tyWtL, stage2, stage3, Mode.strict, ih] at ih ⊢; omega
+
+theorem sq_succ (a : Nat) : (a + 1) * (a + 1) = a * a + 2 * a + 1 := by
+  simp only [Nat.add_mul, Nat.mul_add, Nat.mul_one, Nat.one_mul]; omega
+
+theorem cube_succ (a : Nat) : (a + 1) * (a + 1) * (a + 1) = a * a * a + 3 * (a * a) + 3 * a + 1 := by
+  simp only [Nat.add_mul, Nat.mul_add, Nat.mul_one, Nat.one_mul]; omega
+
+/-- a context that already has one of the two preferences: quadratic weight -/
+theorem tyWt_jsonTy_half (m : Mode) (hm : (m.noLoss && m.noCast) = false) (h3 : stage3 m = false) (n : Nat) :
+    tyWt m (jsonTy n) ≤ (n + 1) * (n + 1) := by
+  have h2 : stage2 m = true := by
+    cases m with | mk a b => cases a <;> cases b <;> simp_all [stage2]
+  induction n with
+  | zero => simp [jsonTy, tyWt]
+  | succ n ih =>
+    have hs := tyWt_jsonTy_strict n
+    simp only [jsonTy, tyWt, tyWtL, h2, h3, if_true, Bool.false_eq_true, if_false] at ih ⊢
+    rw [sq_succ (n + 1)]
+    omega
+
+theorem tyWt_jsonTy_le (m : Mode) (n : Nat) : tyWt m (jsonTy n) ≤ (n + 1) * (n + 1) * (n + 1) := by
+  have hsq : ∀ k : Nat, (k + 1) * (k + 1) ≤ (k + 1) * (k + 1) * (k + 1) := fun k =>
+    Nat.le_mul_of_pos_right _ (Nat.succ_pos k)
+  rcases m with ⟨a, b⟩
+  cases a <;> cases b
+  · -- lenient: all three stages
+    induction n with
+    | zero => simp [jsonTy, tyWt]
+    | succ n ih =>
+      have hs := tyWt_jsonTy_strict n
+      have hh := tyWt_jsonTy_half ⟨true, false⟩ rfl rfl n
+      simp only [jsonTy, tyWt, tyWtL, stage2, stage3, Bool.not_false, Bool.or_self, Bool.and_self, if_true] at ih ⊢
+      rw [cube_succ (n + 1)]
+      omega
+  · exact Nat.le_trans (tyWt_jsonTy_half ⟨false, true⟩ rfl rfl n) (hsq n)
+  · exact Nat.le_trans (tyWt_jsonTy_half ⟨true, false⟩ rfl rfl n) (hsq n)
+  · have := tyWt_jsonTy_strict n
+    simp only [Mode.strict] at this
+    rw [this]
+    exact Nat.le_trans (Nat.le_mul_of_pos_right _ (Nat.succ_pos n)) (hsq n)
+
+/-- **Unions nested through containers cost polynomially**: for the JSON-like type of nesting depth `n`, every
+input `v`, every context and leaf behaviour, valid or invalid: at most `(n+1)³ · size(v)` leaf conversions. -/
+theorem C18_cost_nested_union (W : World) (Q : Quirks) (E : Env) (fuel : Nat) (c : Ctx) (n : Nat) (v : Val) :
+    (parse W Q E fuel c (jsonTy n) v).2 ≤ (n + 1) * (n + 1) * (n + 1) * vsize v :=
+  Nat.le_trans (C18_cost_containers W Q E fuel c (jsonTy n) v (noData_jsonTy n))
+    (Nat.mul_le_mul_right _ (tyWt_jsonTy_le c.mode n))
+
+end Utv.C18
+
+namespace Utv.C18
+
+/-! ### cyclic inputs built from sequences alone
+
+`x = []; x.append(x)` given where a data class is expected: `transform_dataclass` takes the first item once
+(cls.py:616-622), `to_dict` looks one item further (transform.py `_attempt_from`) — and stops.  Every unfolding of
+such an object beyond three levels is a sequence whose first item is a non-empty sequence whose first item is a
+non-empty sequence: it never stands for a mapping, under any preferences, with or without a depth limit, at no cost. -/
+
+/-- **A self-containing sequence is rejected at once** (any class, context, limit, fuel; zero conversions). -/
+theorem C18_seqcycle_rejected (W : World) (Q : Quirks) (E : Env) (fuel : Nat) (c : Ctx) (k : Nat)
+    (stub : Val) (more : List Val) :
+    (parse W Q E fuel c (.data k) (.list [.list [.list (stub :: more)]])).1.isOk = false ∧
+    (parse W Q E fuel c (.data k) (.list [.list [.list (stub :: more)]])).2 = 0 := by
+  cases fuel with
+  | zero => exact ⟨rfl, rfl⟩
+  | succ n =>
+    simp only [parse, step]
+    cases E[k]? with
+    | none => exact ⟨rfl, rfl⟩
+    | some cd =>
+      have key : ∀ o : Out Res × Nat, (o = (.err { depth := true }, 0) ∨ o = (.err {}, 0)) →
+          o.1.isOk = false ∧ o.2 = 0 := by
+        rintro o (rfl | rfl) <;> exact ⟨rfl, rfl⟩
+      apply key
+      rcases c with ⟨d, ⟨cl, cc⟩, md⟩
+      rcases hcd : cd.mode with ⟨a, b⟩
+      by_cases hex : exceeded cd.maxDepth (d + 1) = true <;>
+        cases cc <;> cases a <;> cases b <;> simp [unwrapData, toDict, hex]
+
+/-- … and, at any position below a data class, the declarations force arbitrarily many levels on it (vacuously:
+no reading exists), so `C18_deep_rejected` applies to inputs that contain it wherever a data class is expected -/
+example (E : Env) (k : Nat) (stub : Val) (n : Nat) : Forced E (.data k) (.list [.list [.list [stub]]]) n := by
+  refine .dataSeq k _ n ?_
+  intro m m' v1 kvs hu ht
+  rcases unwrapData_cases m _ _ v1 hu with rfl | rfl
+  · rcases m' with ⟨a, b⟩
+    cases a <;> cases b <;> simp [toDict] at ht
+  · rcases m' with ⟨a, b⟩
+    cases a <;> cases b <;> simp [toDict] at ht
+
+/-- a cycle through a data class *and* a single-item sequence standing for it (`d['nx'] = [d]` with `nx: 'Node'`)
+is forced one level per turn, like the plain cycle: `C18_cyclic_rejected` applies -/
+example : ∀ y m,
+    Forced [{ fields := [("nx", .data 0)] }] (.data 0) (.dict [(.str "nx", .list [y])]) m →
+    Forced [{ fields := [("nx", .data 0)] }] (.data 0)
+      (.dict [(.str "nx", .list [.dict [(.str "nx", .list [y])]])]) (m + 1) := by
+  intro y m h
+  refine .data 0 _ _ "nx" (.data 0) _ m rfl rfl rfl ?_
+  refine .dataSeq 0 _ m ?_
+  intro m1 m2 v1 kvs hu ht
+  rcases unwrapData_cases m1 _ _ v1 hu with rfl | rfl
+  · simp [toDict] at ht; subst ht; exact h
+  · rcases m2 with ⟨a, b⟩
+    cases a <;> cases b <;> simp [toDict] at ht <;> (subst ht; exact h)
 
 end Utv.C18
